@@ -2,7 +2,7 @@
 from harness import exchange_check as xc
 
 TRUSTED_EXTRA = xc.TRUSTED_EXTRA
-PLAN = [('fees', 'medium', 80, 2000), ('limitpartial', 'medium', 50, 1200)]
+PLAN = [('fees', 'medium', 80, 2000), ('limitpartial', 'medium', 50, 1200), ('reconfig', 'small', 25, 400), ('minfee', 'small', 15, 200)]
 
 
 def run(chk):
